@@ -6,6 +6,8 @@ use crate::search::*;
 use serde_json::json;
 
 pub mod c01;
+pub mod c02;
+pub mod c03;
 pub mod c04;
 pub mod c06;
 pub mod c07;
@@ -17,6 +19,8 @@ pub mod c19;
 pub fn run(prop: &str, tier: &str) -> ! {
 	match prop {
 		"C01" => c01::run(tier),
+		"C02" => c02::run(tier),
+		"C03" => c03::run(tier),
 		"C04" => c04::run(tier),
 		"C06" => c06::run(tier),
 		"C07" => c07::run(tier),
@@ -59,6 +63,15 @@ pub fn run_scenarios(run: &mut Run, scns: &[Scenario], budget: &Budget) {
 			}
 		}
 		total.add(&st);
+		if scn.crash.is_some() {
+			c02::crash_summary(run, &st);
+			println!("    crash points={} images={} distinct={} recoveries={} nested={} power-loss={} max-dirty-pages={} recovered-to={:?}",
+				st.crash.crash_points, st.crash.images, st.crash.distinct_images, st.crash.recoveries, st.crash.nested_recoveries,
+				st.crash.power_loss_images, st.crash.max_dirty_pages, st.crash.recovered_to);
+			if let Some(n) = st.crash.recovered_to.get("known:claimed-entries-leak") {
+				run.known_hit("F-C02-claimed-entries-leak", *n);
+			}
+		}
 		for (k, n) in st.known_hits.iter() {
 			run.known_hit(k, *n);
 		}
